@@ -38,7 +38,7 @@ RULE = ("a scheduler-using operator (delay, observe_on, debounce, throttle x 3, 
 
 
 OPS2 = [("(delay 5)", 5), ("observe_on", 2), ("(debounce 5)", 5), ("(buffer_with_time 5)", 5), ("(buffer_with_count_and_time 2 5)", 5),
-        ("(delay_subscription 5)", 5), ("subscribe_on", 2)]
+        ("(delay_subscription 5)", 5), ("subscribe_on", 2), ("(throttle 5 leading)", 5), ("(throttle 5 all)", 5), ("(throttle 2 tailing)", 2)]
 
 
 def two_cases(tier, rng, prefix="z"):
@@ -87,7 +87,7 @@ def two_cases(tier, rng, prefix="z"):
     return cs
 
 
-RULE2 = ("two subscriptions made from clones of ONE operator value (delay, observe_on, debounce, buffer_with_time, buffer_with_count_and_time, "
+RULE2 = ("two subscriptions made from clones of ONE operator value (delay, observe_on, debounce, throttle_time, buffer_with_time, buffer_with_count_and_time, "
          "delay_subscription, subscribe_on) over a subject, on the hook scheduler with a virtual clock: random label sequences (input events, "
          "polls of any of the tasks of either subscription, clock advances, unsubscription of either one); compared with two independent timed "
          "systems fed the same input")
